@@ -23,6 +23,7 @@ PID = "CRULES13"
 THMS = "C13rules"
 MODEL = "rules13"
 BIG = 10 ** 9
+OVERLAP_MAX = 8000
 
 RULES = [
     (13, "FieldsOnCorrectTypeRule"), (14, "ScalarLeafsRule"), (15, "KnownArgumentNamesRule"),
@@ -221,6 +222,7 @@ def core(ck, tier, model_ok, budget_s=None):
     if m is None:
         ck.degraded.append("rules13 model not built: nothing compared")
         return
+    raise_stack_limit()
     rule_text = (
         "per generated schema (gen_exec.GSchema, accepted by validate_schema): type-directed documents (gen_exec.DocGen) and "
         "for each two mutants of c13.mutate and two of crules13.mutate13 (unknown/ill-typed directives, type conditions on "
@@ -299,13 +301,75 @@ def core(ck, tier, model_ok, budget_s=None):
         o0 = m.run_batch([[0] + head + it[4] for it in items])
         o1 = m.run_batch([[1] + h + head + it[4] for h, it in zip(hdr, items)])
         o2 = m.run_batch([[2] + h + head + it[4] for h, it in zip(hdr, items)])
-        for (text, opname, label, doc, w), a0, a1, a2 in zip(items, o0, o1, o2):
-            judge(ck, schema, sdl, classes, text, opname, label, doc, a0, a1, a2)
+        # the un-memoized specification function is evaluated on documents up to OVERLAP_MAX characters
+        small = [len(it[0]) <= OVERLAP_MAX for it in items]
+        ck.count("overlap_skipped_large_document", small.count(False))
+        r5 = iter(safe_batch(ck, m, [[5] + h + head + it[4] for h, it, ok in zip(hdr, items, small) if ok],
+                             [it[0] for it, ok in zip(items, small) if ok], sdl))
+        o5 = [next(r5) if ok else None for ok in small]
+        c14outs = c14_verdicts(schema, [it[3] for it in items])
+        for (text, opname, label, doc, w), a0, a1, a2, a5, c14v in zip(items, o0, o1, o2, o5, c14outs):
+            judge(ck, schema, sdl, classes, text, opname, label, doc, a0, a1, a2, a5, c14v)
     ck.count("rules13_schemas", nschemas)
     ck.extra["rules13_t_s"] = round(time.time() - t0, 1)
 
 
-def judge(ck, schema, sdl, classes, text, opname, label, doc, a0, a1, a2):
+def raise_stack_limit():
+    """the extracted functions recurse as deep as the document is long: give the drivers the hard stack limit"""
+    try:
+        import resource
+        soft, hard = resource.getrlimit(resource.RLIMIT_STACK)
+        if soft != hard:
+            resource.setrlimit(resource.RLIMIT_STACK, (hard, hard))
+    except Exception:  # noqa: BLE001
+        pass
+
+
+def safe_batch(ck, m, inputs, texts, sdl):
+    """run_batch; when the driver dies (stack overflow ...) the inputs are run one by one and the culprit
+    is reported as a violation (the model must answer on every input)"""
+    try:
+        return m.run_batch(inputs)
+    except RuntimeError:
+        out = []
+        for i, t in zip(inputs, texts):
+            try:
+                out.append(m.run_batch([i])[0])
+            except RuntimeError as e:
+                out.append(None)
+                ck.violation(f"model13-crash:{t!r}", f"the extracted model dies ({str(e)[:120]}) on {t[:200]!r}",
+                             {"sdl": sdl, "text": cps(t), "operation_name": None,
+                              "relation": "the extracted model answers on every input"})
+        return out
+
+
+def c14_verdicts(schema, docs):
+    """verdict of C14's extracted specification function on harness/c14.py's own encoding (None: outside its
+    fragment or model not built)"""
+    from . import c14
+    exe = common.OCAML / "overlap" / "model_driver"
+    out = [None] * len(docs)
+    if not exe.exists():
+        return out
+    wires, idx = [], []
+    for i, doc in enumerate(docs):
+        try:
+            w, _ = c14.encode_case(schema, doc)
+        except Exception:  # noqa: BLE001
+            continue
+        wires.append(w)
+        idx.append(i)
+    if wires:
+        try:
+            res = Model("overlap").run_batch(wires)
+        except Exception:  # noqa: BLE001
+            return out
+        for i, r in zip(idx, res):
+            out[i] = r[0] if r else None
+    return out
+
+
+def judge(ck, schema, sdl, classes, text, opname, label, doc, a0, a1, a2, a5=None, c14v=None):
     paths = crules.node_paths(doc)
     replay = {"sdl": sdl, "text": cps(text), "operation_name": opname}
     model = crules.dec_errors(a0)
@@ -402,6 +466,53 @@ def judge(ck, schema, sdl, classes, text, opname, label, doc, a0, a1, a2):
                                      dict(replay, relation="rules silent => well_typed (to_exec d)"))
             else:
                 ck.count("silent_and_well_typed")
+    # the field-merge specification function on the translated operation
+    if a5 and len(a5) == 2:
+        from . import c14
+        from graphql.language import ast as A
+        mv, ids_ok = a5
+        nops = sum(isinstance(dd, A.OperationDefinitionNode) for dd in doc.definitions)
+        if ids_ok != 1:
+            ck.violation(f"overlap-ids:{text!r}", f"to_overlap numbers two field occurrences alike on {text[:160]!r}",
+                         dict(replay, relation="occurrence numbers of the translated document are distinct"))
+        if mv == 2:
+            ck.count("overlap_untyped")
+        elif nops == 1 and '"""' not in text and "-0" not in text:
+            st = c14.impl_conflicts(schema, doc)
+            if st[0] == "ok":
+                ck.count("overlap_compared_with_rule")
+                if st[1] != (mv == 1):
+                    ck.violation(f"overlap:{text!r}",
+                                 f"OverlappingFieldsCanBeMergedRule reports {'a' if st[1] else 'no'} conflict, the specification "
+                                 f"function on to_overlap (to_exec d) {'finds one' if mv == 1 else 'finds none'}: {text[:160]!r}",
+                                 dict(replay, relation="rule reports a conflict <-> Overlap.spec_verdict (to_overlap) = conflict"))
+            if c14v is not None and c14v in (0, 1):
+                ck.count("overlap_compared_with_c14_encoder")
+                if c14v != mv:
+                    ck.violation(f"overlap-c14:{text!r}",
+                                 f"specification function: verdict {mv} on to_overlap, {c14v} on harness/c14.py's encoding of {text[:160]!r}",
+                                 dict(replay, relation="Overlap.spec_verdict (to_overlap (to_exec d)) = spec_verdict (c14 encoding)"))
+        if mv == 0 and a2 and len(a2) == 9 and a2[2] == 1 and a2[4] == 1 and impl_silent and extra_silent:
+            ck.count("all_silent_documents")
+            if a2[3] != 1:
+                from graphql.language import ast as A2
+                op = [dd for dd in doc.definitions if isinstance(dd, A2.OperationDefinitionNode)
+                      and (opname is None or (dd.name and dd.name.value == opname))]
+                if op and schema.get_root_type(op[0].operation) is not None:
+                    ck.violation(f"typed-all:{text!r}",
+                                 f"all modelled rules and the field-merge function are silent but well_typed is false on {text[:160]!r}",
+                                 dict(replay, relation="rules + overlap silent => well_typed (to_exec d)"))
+            else:
+                ck.count("all_silent_and_well_typed")
+        # instance of C13_rules_typed evaluated on the extracted model alone: every hypothesis true => the
+        # boolean checker of the judgment accepts
+        if (mv == 0 and opname is None and a2 and len(a2) == 9 and a2[0] == 1 and a2[1] == 1 and a2[4] == 1
+                and a2[5] == 1 and a2[6] == 1 and a2[7] == 1):
+            ck.count("typed_theorem_instances")
+            if a2[3] != 1:
+                ck.violation(f"thm-instance:{text!r}",
+                             f"hypotheses of C13_rules_typed hold in the model but well_typed is false on {text[:160]!r}",
+                             dict(replay, relation="C13_rules_typed instance: hypotheses => well_typed (to_exec d)"))
     nontrivial = nerr > 0 or (impl_silent and any(x in text for x in ("...", "$", "@")))
     ck.note_case(("crules13", sdl, text), nontrivial=nontrivial,
                  sample={"text": text[:200], "errors": nerr} if nerr and label != "generated" else None)
@@ -436,7 +547,7 @@ def run(tier):
     ck = Check(PID, tier)
     ck.assumptions += ASSUMPTIONS
     has_thms = (common.COQ / "theories" / "Properties" / f"{THMS}.v").exists()
-    br = common.build(PID, models=(MODEL,),
+    br = common.build(PID, models=(MODEL, "overlap"),
                       extra_targets=(f"theories/Properties/{THMS}.vo",) if has_thms else ())
     account_proofs(ck, br)
     core(ck, tier, br.ok, budget_s=70 if tier == "quick" else 800)
@@ -453,6 +564,7 @@ def replay(path):
     ck = Check(PID, "replay")
     ck.known = []
     m = Model(MODEL)
+    raise_stack_limit()
     schema = build_schema(d["sdl"])
     text, opname = from_cps(d["text"]), d.get("operation_name")
     print("schema:\n" + d["sdl"][:1500])
@@ -461,10 +573,10 @@ def replay(path):
     head = G.flatten(G.enc_schema(schema)) + G.flatten(enc_dirtable(schema))
     hdr = [0] if opname is None else [len(opname) + 1] + cps(opname)
     w = pc.enc_node(doc)
-    a0, a1, a2 = (m.run_batch([[0] + head + w])[0], m.run_batch([[1] + hdr + head + w])[0],
-                  m.run_batch([[2] + hdr + head + w])[0])
+    a0, a1, a2, a5 = (m.run_batch([[0] + head + w])[0], m.run_batch([[1] + hdr + head + w])[0],
+                      m.run_batch([[2] + hdr + head + w])[0], m.run_batch([[5] + hdr + head + w])[0])
     classes = rule_classes([n for _, n in RULES] + EXTRA)
-    judge(ck, schema, d["sdl"], classes, text, opname, "replay", doc, a0, a1, a2)
+    judge(ck, schema, d["sdl"], classes, text, opname, "replay", doc, a0, a1, a2, a5, c14_verdicts(schema, [doc])[0])
     for key, what, _ in ck.violations:
         print("VIOLATION:", what)
     print("STILL FAILING" if ck.violations else "passes now")
